@@ -312,7 +312,7 @@ int fiber_manager_get_kernel_thread_count() {
 extern int fiber_mutex_unlock_internal(fiber_mutex_t* mutex);
 
 void fiber_manager_do_maintenance() {
-  fiber_manager_t* const manager = fiber_manager_get();
+  fiber_manager_t* manager = fiber_manager_get();
 
   fiber_t* const old_fiber = manager->old_fiber;
   if (old_fiber->state == FIBER_STATE_SAVING_STATE_TO_WAIT) {
@@ -345,6 +345,10 @@ void fiber_manager_do_maintenance() {
     fiber_mutex_t* const to_unlock = manager->mutex_to_unlock;
     manager->mutex_to_unlock = NULL;
     fiber_mutex_unlock_internal(to_unlock);
+    // unlocking a contended mutex can yield: re-grab the manager, since we
+    // could be on a different thread now and the old thread's deferred slots
+    // may already belong to another fiber's context switch
+    manager = fiber_manager_get();
   }
 
   if (manager->spinlock_to_unlock) {
